@@ -150,7 +150,7 @@ func (e EncStr) Value(ctx context.Context, field *schema.Field, dst reflect.Valu
 
 // shared reusable handles carrying chain state with spare slice capacity (3 joins / 3
 // orders): every goroutine derives its own chain from them
-type sharedHandles struct{ joins, order, orFirst *gorm.DB }
+type sharedHandles struct{ joins, order, orFirst, fromJoins *gorm.DB }
 
 var sharedOf sync.Map // root *gorm.DB -> *sharedHandles
 
@@ -171,6 +171,11 @@ func makeShared(root *gorm.DB) {
 		// conditions whose first one is a single Or (legal: it reads as Where): building the WHERE clause reorders
 		// them for this statement, and every goroutine builds from the same handle
 		orFirst: root.Table("solos").Or("v <> ?", "none").Where("id < ?", 0).Session(&gorm.Session{}),
+		// a FROM clause built by hand whose list of joins has room behind its one element: every goroutine adds an
+		// association join of its own on top of it
+		fromJoins: root.Model(&User{}).Clauses(clause.From{Joins: append(make([]clause.Join, 0, 4), clause.Join{
+			Type: clause.LeftJoin, Table: clause.Table{Name: "pets", Alias: "fp"},
+			ON: clause.Where{Exprs: []clause.Expression{clause.Expr{SQL: "fp.user_id = users.id AND fp.id < 0"}}}})}).Session(&gorm.Session{}),
 	}
 	sharedOf.Store(root, sh)
 }
@@ -320,6 +325,19 @@ var steps = []step{
 		err := sh.joins.Joins("LEFT JOIN toys t ON t.owner_id = users.id AND t.owner_type = 'users' AND t.name = ?", fmt.Sprint("t", b+10)).
 			Where("users.id >= ? AND users.id < ?", b, b+1000).Select("users.id AS id, t.name AS name").Order("users.id").Scan(&out).Error
 		return fmt.Sprintf("%s %v", fmtErr(err), out)
+	}},
+	{"SharedFromJoins", func(db *gorm.DB, b int64) string {
+		sh := getShared(db)
+		if sh == nil {
+			return "no shared handle"
+		}
+		out := ""
+		for i, rel := range []string{"Company", "Manager", "Company"} {
+			var us []User
+			err := sh.fromJoins.Joins(rel).Where("users.id >= ? AND users.id < ?", b, b+1000).Order("users.id").Find(&us).Error
+			out += fmt.Sprintf("%d:%s %d;", i, fmtErr(err), len(us))
+		}
+		return out
 	}},
 	{"SharedOrFirst", func(db *gorm.DB, b int64) string {
 		sh := getShared(db)
@@ -689,7 +707,7 @@ func run(c *core.Ctx) {
 		for g := range progs {
 			p := []int{idx["CreateSolo"]}
 			for n := r.Range(4, 8); n > 0; n-- {
-				p = append(p, idx[core.Pick(r, []string{"FindSolos", "FirstSolo", "FindSolos", "SharedOrFirst"})])
+				p = append(p, idx[core.Pick(r, []string{"FindSolos", "FirstSolo", "FindSolos", "SharedOrFirst", "SharedFromJoins"})])
 			}
 			progs[g] = p
 		}
